@@ -72,8 +72,18 @@ class Case:
         return tuple(self.int(min_side, max_side) for _ in range(r))
 
     def signed_axis(self, a, nd):
-        """Return axis a or its negative form a-nd."""
-        return a - nd if self.bool() else a
+        """Return axis a or its negative form a-nd; one time in four as a NumPy integer (what np.argmax, np.arange or shape arithmetic
+        hand to user code).  The spelling is a function of the choices made so far, so it needs no draw of its own."""
+        a = a - nd if self.bool() else a
+        h = 0x9E3779B97F4A7C15
+        for ch in self.choices[-6:]:
+            h = ((h ^ (ch & 0xFFFFFFFFFFFF)) * 0xBF58476D1CE4E5B9) & 0xFFFFFFFFFFFFFFFF
+        h ^= h >> 29
+        if h % 4 == 0:
+            import numpy as onp
+
+            return (onp.int64, onp.int32, onp.intp)[(h >> 8) % 3](a)
+        return a
 
     def axis(self, nd):
         return self.signed_axis(self.int(0, nd - 1), nd)
